@@ -87,6 +87,9 @@ class Method(Variable):  # i.e. TypeBound procedure
                 )
             finally:
                 self._hover_active = False
+            if link_msg is None:
+                # The link has no signature of its own (a generic interface)
+                return f"{self.get_desc(no_link=True)} :: {self.name}", docs
             # Replace the name of the linked object with the name of this object
             hover_str = link_msg.replace(self.link_obj.name, self.name, 1)
             if isinstance(link_docs, str):
